@@ -270,6 +270,17 @@ def simple(ctx, db):
                     ctx.violation("simple:repr-or-str-raised:%s" % type(e).__name__, dict(case, error=str(e)[:160]), replay=case)
                 if sh is not None and (u not in sh[0] or ("[%s]" % u) not in sh[1] or u not in sh[2] or ("[%s]" % u) not in sh[3]):
                     ctx.violation("simple:repr-or-str-does-not-show-the-unit", dict(case, repr=sh[0], str=sh[1], array_repr=sh[2], array_str=sh[3]), replay=case)
+                # ... however many values there are (a long array's text still ends with its unit)
+                if idx % 40 == 0:
+                    ctx.ev()
+                    try:
+                        big = Array(q, [0.123456789012345 * k for k in range(3000)])
+                        big_nd = Array(q, __import__("numpy").arange(3000, dtype=float) / 7.0)
+                        shown_big = (repr(big), str(big), repr(big_nd), str(big_nd))
+                        if any(u not in t[-(len(u) + 8):] for t in shown_big):
+                            ctx.violation("simple:repr-or-str-of-a-long-array-does-not-show-the-unit", dict(case, tails=[t[-40:] for t in shown_big]), replay=case)
+                    except Exception as e:
+                        ctx.violation("simple:formatting-raised:long-array:%s" % type(e).__name__, dict(case, error=str(e)[:160]), replay=case)
                 # ... whatever the amount: zero, negative, huge, tiny, not a number, infinite (formatting treats some of these apart)
                 for label, x in (("nan", float("nan")), ("inf", float("inf")), ("-inf", float("-inf")), ("0", 0.0), ("-0", -0.0), ("huge", 1e300), ("tiny", 5e-324), ("negative", -2.5), ("int", 7)):
                     ctx.ev()
